@@ -202,8 +202,26 @@ let handle_glob words =
     text ^ " " ^ String.concat "" codes
   | _ -> "badcase"
 
+(* ---- paths ---- *)
+let hexlist l = if l = [] then "~" else String.concat "," (Stdlib.List.map hex_of_bytes l)
+let bl s = Stdlib.List.map bytes_of_hex (list_of s)
+let handle_paths words =
+  match words with
+  | ["epath"; root; names] -> hex_of_bytes (Paths.entry_path (bytes_of_hex root) (bl names))
+  | ["starts"; args] -> let (ps, e) = Paths.starting_points (bl args) in hexlist ps ^ " " ^ hexlist e
+  | ["files0"; data] -> let (ns, diag) = Paths.files0_names (bytes_of_hex data) in hexlist ns ^ (if diag then " 1" else " 0")
+  | ["exec"; execdir; exe; tmpls; path] ->
+    let argv = ExecSingle.exec_argv (execdir = "1") (bytes_of_hex exe) (bl tmpls) (bytes_of_hex path) in
+    let cwd = match ExecSingle.exec_cwd (execdir = "1") (bytes_of_hex path) with None -> "none" | Some c -> hex_of_bytes c in
+    hexlist argv ^ " " ^ cwd
+  | ["parent"; p] -> (match PathModel.parent (bytes_of_hex p) with None -> "none" | Some x -> hex_of_bytes x)
+  | ["file_name"; p] -> (match PathModel.file_name (bytes_of_hex p) with None -> "none" | Some x -> hex_of_bytes x)
+  | ["join"; a; b] -> hex_of_bytes (PathModel.join (bytes_of_hex a) (bytes_of_hex b))
+  | ["strip_prefix"; a; b] -> (match PathModel.strip_prefix (bytes_of_hex a) (bytes_of_hex b) with None -> "none" | Some x -> hex_of_bytes x)
+  | _ -> "badcase"
+
 let handlers : (string * (string list -> string)) list ref =
-  ref [ ("xread", handle_xread); ("xargs", handle_xargs); ("xrepl", handle_xrepl); ("xnorm", handle_xnorm); ("walk", handle_walk); ("expr", handle_expr); ("num", handle_num); ("glob", handle_glob) ]
+  ref [ ("xread", handle_xread); ("xargs", handle_xargs); ("xrepl", handle_xrepl); ("xnorm", handle_xnorm); ("walk", handle_walk); ("expr", handle_expr); ("num", handle_num); ("glob", handle_glob); ("paths", handle_paths) ]
 
 let () =
   try while true do
